@@ -29,6 +29,8 @@ def weight(job):
     if job.get('kind') == 'custom' and job.get('func') == 'run_clone_job':
         return {0: 0.1, 1: 0.5, 2: 8, 3: 150}.get(job['N'], 1000)
     if job.get('kind') == 'custom' and job.get('module') == 'kanileaf': return 500
+    if job.get('kind') == 'custom' and job.get('func') == 'run_move_then_remove_job':
+        return {2: 3, 3: 60, 4: 1200}.get(job['N'], 3000)
     if job.get('kind') == 'custom' and job.get('func') == 'run_de_history_job':
         return {2: 3, 3: 40, 4: 300, 5: 900}.get(job['N'], 1000)
     if job.get('kind') == 'custom' and job.get('func') == 'run_history_job':
@@ -238,6 +240,11 @@ def plan(prop, tier):
 def plan_dev(prop, tier):
     jobs = mutator_jobs(prop, tier)
     if prop in ('C01', 'C02', 'C08', 'C12'): jobs += history_jobs(prop, tier)
+    if prop in ('C08', 'C04'):
+        for opm in (('checked_insert_after', 'checked_append') if tier == 'quick' else ('checked_append', 'checked_prepend', 'checked_insert_after', 'checked_insert_before')):
+            for N in ((2, 3) if tier == 'quick' else (2, 3, 4)):
+                jobs.append({'kind': 'custom', 'module': 'multistep', 'func': 'run_move_then_remove_job', 'name': 'move_then_remove', 'op': opm + '_then_remove_subtree',
+                             'op_mut': opm, 'N': N, 'cfg': 'dev', 'feat': 'std', 'props': [prop]})
     if prop in ('C03', 'C08'):
         for N in range(1, (3 if tier == 'quick' else 4) + 1):
             jobs.append({'kind': 'custom', 'module': 'multistep', 'func': 'run_append_value_equiv_job', 'name': 'append_value_equiv', 'op': 'append_value_equiv',
